@@ -66,7 +66,19 @@ def inject(text, kind, rng):
     toks = lexer.tokenize(text)
     ids = [t for t in toks if t.kind == "id" and t.text not in lexer.KEYWORDS]
     fault = rng.choice(["undeclared", "undeclared", "drop-operand", "unbalanced", "stray", "type-error", "side-effect",
-                        "unterminated-comment", "semantic", "semantic"])
+                        "unterminated-comment", "semantic", "semantic", "abandoned-quantifier"])
+    if fault == "abandoned-quantifier":
+        # the block ends (or goes wrong) after the header of a quantifier was read: the scope the header opened is
+        # still open when the parser gives up
+        q = rng.choice(["forall (qz : int[0,2]) g0 >=", "exists (qz : int[0,1]) (g0 > ", "forall (qz : int[0,1]) forall (qy : int[0,1]) qz +",
+                        "(sum (qz : int[0,2]) g0 *) > 1", "forall (qz : int[0,2]) g0 >= qz )"])
+        if kind in ("label:guard", "label:invariant"):
+            return (text + " && " + q) if rng.random() < 0.7 else (q + " && " + text), fault, None
+        if kind == "label:assignment":
+            if q.endswith(")"):
+                return None         # "g0 = (" in front would close it again
+            return text + ", g0 = (" + q, fault, None
+        return None
     if fault == "semantic":
         # errors raised by the builders while the block is being parsed (the grammar goes on after them) and type
         # errors found later by the type checker, at a random conjunct / list position
